@@ -176,6 +176,55 @@ func runC15(x *X) {
 		mode := 1 + c.Choose(4)
 		c15Run(x, c, tables[ti], rends[ri], wk, mode, k, 0, r.bytes, r.err, modeNames)
 	})
+	// tall tables (more body rows than any plausible batch size): single faults only
+	tall := []c10Table{
+		{"70 body rows", func(t tabular.Table) {
+			t.AddHeaders("n", "v")
+			for i := 0; i < 70; i++ {
+				t.AddRowItems(i, fmt.Sprintf("v%d", i))
+			}
+		}},
+		{"130 body rows with a separator every 40 rows, three columns", func(t tabular.Table) {
+			t.AddHeaders("n", "v", "w")
+			for i := 0; i < 130; i++ {
+				if i%40 == 39 {
+					t.AddSeparator()
+				}
+				t.AddRowItems(i, fmt.Sprintf("v%d", i), "w\"<")
+			}
+		}},
+	}
+	tallRefs := map[[3]int]ref{}
+	for ti, tb := range tall {
+		for ri, rd := range rends {
+			for wk := 0; wk < 2; wk++ {
+				t := tabular.New()
+				tb.build(t)
+				var fw faultWriter
+				var err error
+				if wk == 0 {
+					err = rd.to(t, &fw)
+				} else {
+					sw := &stringFaultWriter{}
+					err = rd.to(t, sw)
+					fw = sw.faultWriter
+				}
+				tallRefs[[3]int{ti, ri, wk}] = ref{fw.accepted.String(), fw.calls, err}
+			}
+		}
+	}
+	x.Explore("single-fault-tall-tables", ExploreOpts{ShardDepth: 3, Bound: "2 tall tables (70 and 130 body rows) x every renderer x writer kind x every Write index k of the fault-free run x 4 failure modes"}, func(c *Chooser) {
+		ti, ri, wk := c.Choose(len(tall)), c.Choose(len(rends)), c.Choose(2)
+		r := tallRefs[[3]int{ti, ri, wk}]
+		if r.calls == 0 {
+			c.Choose(1)
+			c.Choose(1)
+			return
+		}
+		k := 1 + c.Choose(r.calls)
+		mode := 1 + c.Choose(4)
+		c15Run(x, c, tall[ti], rends[ri], wk, mode, k, 0, r.bytes, r.err, modeNames)
+	})
 	{
 		x.Explore("double-fault", ExploreOpts{ShardDepth: 3, Bound: "every (table, renderer, writer kind) x every pair k1<k2 of single-call failures"}, func(c *Chooser) {
 			ti, ri, wk := c.Choose(len(tables)), c.Choose(len(rends)), c.Choose(2)
